@@ -7,6 +7,10 @@ use std::io::{BufRead, BufReader, BufWriter, Write};
 
 fn main() {
     let args: Vec<String> = std::env::args().collect();
+    if args.len() >= 2 && args[1] == "restart-child" {
+        // hidden mode: one phase of the `restart` suite (a real node over a data dir), see suites/restart.rs
+        suites::restart::child_main(&args[2..]);
+    }
     if args.len() < 4 {
         eprintln!("usage: rnverif <suite> <cases.jsonl> <out.jsonl>");
         std::process::exit(2);
